@@ -18,7 +18,7 @@ from common import Report, pick_samples, log
 from genlib import gen_request, generate, DEFAULT_OPTS
 
 FEATURES = ["iface", "impl2", "union", "enum", "scalar", "nesting", "dep_reason", "dep_iface", "input", "oneof",
-            "rootnames", "mutation", "subscription", "extend", "args", "enum_dep", "extend_impl", "shadow_roots"]
+            "rootnames", "mutation", "subscription", "extend", "args", "enum_dep", "extend_impl", "shadow_roots", "underscore"]
 
 
 def build(features):
@@ -32,7 +32,7 @@ def build(features):
     sel = [Field("a")]
     vars_ = []
     late_ext = False
-    if "iface" in f or "impl2" in f or "dep_iface" in f or "extend" in f or "extend_impl" in f:
+    if "iface" in f or "impl2" in f or "dep_iface" in f or "extend" in f or "extend_impl" in f or "underscore" in f:
         ifields = [FieldDef("id", "ID!")]
         if "dep_iface" in f:
             ifields.append(FieldDef("old", "String", dep=(None,)))
@@ -58,6 +58,20 @@ def build(features):
             types.append(gql.obj("Late", late))
             late_ext = True
             node_sel.append(Inline("Late", [Field("late")]))
+        if "underscore" in f:
+            # type names with ONE leading underscore are ordinary names (only `__` is reserved): an implementer that is
+            # reachable only as a runtime type, a custom scalar, an enum and an input object
+            u = [FieldDef("id", "ID!"), FieldDef("sdl", "String")]
+            if "dep_iface" in f:
+                u.append(FieldDef("old", "String"))
+            types.append(gql.obj("_Service", u, ["Node"]))
+            types.append(gql.scalar("_Any"))
+            types.append(gql.enum("_UKind", ["A_ONE", "b_two"]))
+            types.append(gql.inp("_UFilter", [("x", "Int"), ("k", "_UKind")]))
+            qfields += [FieldDef("svc", "_Service"), FieldDef("any", "_Any"), FieldDef("uk", "_UKind!"),
+                        FieldDef("ufind", "Int", args=[("uf", "_UFilter")])]
+            sel += [Field("svc", [Field("sdl")]), Field("any"), Field("uk"), Field("ufind", args=[("uf", "$uf")])]
+            vars_.append(("uf", "_UFilter", None))
         qfields.append(FieldDef("node", "Node"))
         sel.append(Field("node", node_sel))
     if "union" in f:
@@ -303,10 +317,10 @@ def run(tier):
     cov = {
         "states": len(schemas), "lattice_schemas": n_lattice, "harvested_schemas": len(schemas) - n_lattice, "transitions": transitions, "traces_validated_against_impl": transitions,
         "evaluations": len(jobs), "distinct_nontrivial": len(schemas) - 1,
-        "rule": "state = schema built from a subset of 16 constructs (interface+implementor, second implementor, union, enums, "
+        "rule": "state = schema built from a subset of 19 constructs (interface+implementor, second implementor, union, enums, "
                 "custom scalars, nested list/non-null types, deprecation with / without reason on objects and interfaces, "
                 "recursive inputs, @oneOf, explicit schema block with non-default root names, mutation, subscription, extend "
-                "type, argument defaults, deprecated enum values): all subsets of size <= %d, the full set, and CORE; transition "
+                "type, argument defaults, deprecated enum values, field-less extend-implements, shadowed root names, type names with a leading underscore): all subsets of size <= %d, the full set, and CORE; transition "
                 "= comparison of one rendering (3 SDL extensions, bare / wrapped JSON, JSON without built-ins but with __ types, "
                 "kind-grouped and reversed type orders, folded extensions) with the SDL rendering, per covering operation "
                 "(query / mutation / subscription) and option set (3); plus the schemas and operations harvested from the input spaces "
